@@ -182,8 +182,12 @@ def h_predict(c0: float, c1: float, t1: float, t2: float) -> bool:
             if b.get("solved_by") == "mcs-based":
                 c = confs[k]
                 k += 1
-                if r.get("confidence") != c:
+                # the reported confidence is the model output, possibly rounded to 3 decimals; the decision is
+                # taken on the reported value
+                rep = r.get("confidence")
+                if not (c - 0.0005 <= rep <= c + 0.0005):
                     return False
+                c = rep
                 if c >= t:
                     kept += 1
                     if r["solved"] is not True or r["issue"] != "":
